@@ -667,6 +667,12 @@ def runKeys (j : Json) : P Json := do
     match v with
     | some v => pure (verdictJ v)
     | none => pure (Json.mkObj [("r", "unmodelled")])
+  | "source" =>
+    -- keys written in Datalog source are read by the decoder of `PublicKey::from_str`: the text is
+    -- refused as soon as one of them is
+    let keys ← (← getArr (← field j "keys")).mapM fun k => k.getStr?
+    let bad := keys.any fun k => parsePubString k.toList == .reject
+    pure (Json.mkObj [("r", if bad then "err" else "ok")])
   | _ =>
     -- a signature verifies exactly when key, message and signature are the genuine ones (scheme
     -- correctness and unforgeability: the hypotheses of C01/C17, not theorems)
